@@ -1,5 +1,6 @@
 import Tw.Proofs.NetLazy
 import Tw.Proofs.NetC01Final
+import Tw.Proofs.NetC01Total
 
 /-!
 # C20 — the multi-peer endpoint keeps peers isolated
@@ -415,6 +416,19 @@ theorem net_peer_is_c01_connection (tl acc : Bool) (addr : Nat) (sched : List Tw
         (Tw.NetC01.ghostSched addr (Tw.NetC01.NW.init tl acc) sched) = some w.g := by
   have hc := Tw.NetC01.coup_run sched _ w (Tw.NetC01.coup_init tl acc addr) hok hrun
   exact ⟨fun pid p h => (hc.conn pid p h).1, hc.vital, hc.sub, Tw.NetC01.ghost_run sched _ w hrun⟩
+
+/-- the ghost world never ends a run of the composite world: in a coupled state a move fails only
+if the endpoint's own call fails (or its datagram does not exist / the call is outside the world's
+alphabet), or the address would get a second peer, or it is a move of the remote (whose own call or
+delivery may fail) -/
+theorem composite_run_ends_for_real_reasons (tl : Bool) (addr : Nat) (w : Tw.NetC01.NW tl)
+    (m : Tw.NetC01.NMove) (hc : Tw.NetC01.Coup addr w)
+    (hok : ∀ d op, m = .net d op → opOk w.net op = true) (h : Tw.NetC01.nwStep addr w m = none) :
+    Tw.NetC01.realStep tl addr w m = none ∨
+      (∃ net1 r o, Tw.NetC01.realStep tl addr w m = some (net1, r, o) ∧
+        (Tw.NetC01.created addr w net1 && w.born) = true) ∨
+      ((∃ d c, m = .remCall d c) ∨ ∃ i d alt, m = .toRemote i d alt) :=
+  Tw.NetC01.nwStep_none hc hok h
 
 example : (Tw.NetC01.nwRun 1 (Tw.NetC01.NW.init false true) Tw.NetC01.demoRun).map Tw.NetC01.summary =
     some ([[7], [8]], [([5], true)], [[7], [8]], [[5]]) := by rfl
